@@ -190,6 +190,7 @@ fn manager(family: String, work: Arc<Mutex<Receiver<(u64, String)>>>, opts: Arc<
     const WINDOW: usize = 32;
     let mut run = spawn_worker(&family);
     let mut inflight: VecDeque<(u64, String)> = VecDeque::new();
+    let mut retried: std::collections::HashSet<u64> = std::collections::HashSet::new();
     let mut work_done = false;
     let mut last_progress = Instant::now();
     let mut cpu_at_progress: u64 = 0;
@@ -332,6 +333,19 @@ fn manager(family: String, work: Arc<Mutex<Receiver<(u64, String)>>>, opts: Arc<
                 // Give the stderr thread a moment to collect the tail.
                 std::thread::sleep(Duration::from_millis(20));
                 let tail = String::from_utf8_lossy(&run.stderr_tail.lock().unwrap()).to_string();
+                // A timeout is only a finding when it happens twice: the case goes to a fresh worker once more (a case that
+                // hangs, hangs again; a stall of the machine or of the plumbing does not repeat).
+                if timed_out && !retried.contains(&inflight.front().map(|x| x.0).unwrap_or(0)) {
+                    retried.insert(inflight.front().map(|x| x.0).unwrap_or(0));
+                    summary.lock().unwrap().restarts += 1;
+                    run = spawn_worker(&family);
+                    last_progress = Instant::now();
+                    cpu_at_progress = 0;
+                    for (_, line) in inflight.iter() {
+                        run.send(line);
+                    }
+                    continue;
+                }
                 let (idx, case_line) = inflight.pop_front().unwrap();
                 let case: Value = serde_json::from_str(&case_line).unwrap_or(Value::Null);
                 let detail = if timed_out {
